@@ -135,6 +135,9 @@ fn menu_members(id: u8) -> Vec<(Slot, bool, bool)> {
         11 => vec![(s(2), true, false), (s(3), false, true)],
         12 => vec![(s(7), false, false)],
         13 => vec![(s(5), true, false), (s(1), false, false)],
+        14 => vec![(s(4), true, false), (s(0), false, false)],
+        15 => vec![(s(2), false, false), (s(7), false, true)],
+        16 => vec![(s(6), false, false), (s(7), false, true)],
         _ => panic!("menu"),
     }
 }
